@@ -11,7 +11,8 @@ PROP = dict(
                        "Comdex.C15.slice_in_bounds", "Comdex.C15.sweep_total_if_counter_le_cap", "Comdex.C15.borrow_sweep_total",
                        "Comdex.C15.d3_counterexample", "Comdex.C15.d3_panics_when_counter_exceeds_cap",
                        "Comdex.C15.unwrapped_loop_leaks_counterexample", "Comdex.C15.unwrapped_calls_reviewed",
-                       "Comdex.C15.units_of_work_wrapped", "Comdex.C15.table_pins"],
+                       "Comdex.C15.units_of_work_wrapped", "Comdex.C15.wrapped_units_propagate_errors",
+                       "Comdex.C15.units_use_their_cache_context", "Comdex.C15.per_item_units_can_report_failure", "Comdex.C15.table_pins"],
     harness_tests=["TestC15"],
     trusted_base=[KERNEL_TB, HARNESS_TB,
                   "extract/hooks (go/ast, syntactic, no type information): its expansion policy (host functions and unwrapped "
@@ -43,9 +44,9 @@ META = dict(
          "a wrapper is on a reviewed list (with slice-bound theorems for the sweeps) or on one of two defect lists. Partial: the "
          "run-time part (what a Go panic and a store write do) is exhibited by injecting a fault at store accesses of every wrapped "
          "unit of the real blockers and comparing full state dumps; part of the review list is unproved.",
-    note="Open defect on /repo HEAD: D3 (vault counter incremented twice by an ESM-closed first-generation auction; the "
-         "second-generation liquidation BeginBlocker then panics with a slice bound out of range in every block: chain halt; "
-         "two-line patch in notes/C15.md; monitor no_panic). D6 (second-generation borrow liquidations ran unwrapped: a failing borrow "
-         "aborted the sweep and could stay flagged liquidated with no auction) was reproduced on the tree before c15713f and is now "
-         "demanded by the table; monitors unit_atomic, remaining_run.",
+    note="Found with this check and since repaired in /repo: D3 (vault counter incremented twice by an ESM-closed first-generation "
+         "auction; the second-generation liquidation BeginBlocker then panicked with a slice bound out of range in every block; e29235a) "
+         "and D6 (second-generation borrow liquidations ran unwrapped; c15713f). The table also demands that every error produced inside a "
+         "wrapped closure is returned (wrapped_units_propagate_errors) and the harness produces error-returning late failures per unit "
+         "(natural failures, per-item step oracle); monitors no_panic, unit_atomic, remaining_run.",
 )
